@@ -183,7 +183,7 @@ def occ_for(o, fe):
     if not o["unbounded"]:
         return o["occ"]
     s0, p = o["occ_all0"][0], o["period"]
-    n = max(60, min(5000, (fe - s0) // p + 3)) if fe < TMAX else 60
+    n = max(60, min(200000, (fe - s0) // p + 3)) if fe < TMAX else 60      # (a cap of 5000 made the free-busy oracle miss the occurrence limit on 57-year ranges)
     return [t for t in (s0 + i * p for i in range(n)) if t not in o["ex"]]
 
 
